@@ -86,7 +86,7 @@ func (Prop) RunBatch(c *vp.Child) {
 		return
 	}
 	cp := eng.Corpus{
-		Programs:   c.Pick(1500, 60000),
+		Programs:   c.Pick(1500, 30000),
 		Options:    errOptions,
 		NStyles:    c.Pick(2, 4),
 		NArgs:      c.Pick(1, 2),
